@@ -90,6 +90,9 @@ def impl(case):
                         continue
                     i = state["responses"]
                     state["responses"] += 1
+                    if case.get("redirect") and i == 0:
+                        peer.send(http_response(302, "Found", [("Location", "https://%s/moved" % dest_host)], b""))
+                        continue
                     peer.send(http_response(200, "OK", [], b"ok"))
                     if i < len(case["close_after"]) and case["close_after"][i]:
                         peer.eof()
@@ -124,9 +127,13 @@ def impl(case):
             pm = urllib3.ProxyManager("%s://proxy.example:3128" % case["proxy_scheme"], proxy_headers=dict(case["proxy_headers"]) or None,
                                       use_forwarding_for_https=case["forwarding"])
             url = "%s://%s/res" % (case["dest_scheme"], dest_host)
+            shared_headers = dict(case["headers"])       # one mapping re-used for every request of a redirect case
             for i in range(case["nreq"]):
                 try:
-                    r = pm.request("GET", url + str(i), headers=dict(case["headers"]) or None, retries=case["retries"], redirect=False)
+                    if case.get("redirect"):
+                        r = pm.request("GET", url + str(i), headers=shared_headers, redirect=True)
+                    else:
+                        r = pm.request("GET", url + str(i), headers=dict(case["headers"]) or None, retries=case["retries"], redirect=False)
                     outcomes.append([0])
                 except urllib3.exceptions.MaxRetryError as e:
                     outcomes.append([3, S(type(e.reason).__name__)])
@@ -146,11 +153,24 @@ def impl(case):
         _STASH[id(case)] = problems
 
 
+def in_model_domain(case):
+    """the model has one destination per case; a redirect from a forwarded http URL to a tunnelled https one is judged by the oracle only"""
+    return not case.get("redirect")
+
+
 def oracle(case, obs):
     problems = _STASH.pop(id(case), [])
     if problems:
         return problems[0]
     msgs, outs = obs
+    if case.get("redirect"):
+        for m in msgs:
+            conn, layers, line, pa, xp, xa, au, hostv, tunnelled = m
+            if tunnelled and (pa or xp):
+                return "a proxy header (%s) was sent inside the tunnel after a redirect from a forwarded request" % ("Proxy-Authorization" if pa else "X-Proxy")
+            if bytes(line).startswith(b"CONNECT ") and (xa or au):
+                return "the CONNECT request carries the caller's request headers"
+        return None
 
     def T(x):
         return bytes(x).decode("latin-1") if isinstance(x, list) else x
@@ -249,6 +269,12 @@ def cases(rng, tier):
                                 out.append({"proxy_scheme": ps, "dest_scheme": ds, "forwarding": fw, "proxy_headers": {"Proxy-Authorization": "Basic dTpw", "X-Proxy": "1"},
                                             "headers": {"X-App": "1", "Authorization": "Bearer t"}, "proxy_cert": pc, "origin_cert": oc, "connect": [st, 200, 200], "ipv6": False,
                                             "close_after": [close, False], "nreq": 2, "retries": False})
+    # a forwarded http request redirected to the https origin (a tunnel), with one headers mapping re-used
+    for ps in ("http", "https"):
+        for ph in ({"Proxy-Authorization": "Basic dTpw", "X-Proxy": "1"}, {"X-Proxy": "1"}, {}):
+            for rh in ({}, {"X-App": "1"}, {"Authorization": "Bearer t", "X-App": "1"}):
+                out.append({"proxy_scheme": ps, "dest_scheme": "http", "forwarding": False, "proxy_headers": ph, "headers": rh, "proxy_cert": "ok", "origin_cert": "ok",
+                            "connect": [200, 200], "ipv6": False, "close_after": [False, False, False], "nreq": 2, "retries": False, "redirect": True})
     for _ in range(1500 if tier == "quick" else 30000):
         out.append(one_case(rng))
     return out
